@@ -551,4 +551,86 @@ theorem parseExt_fuel (s : Bytes) (acc : List Ext) : (parseExtValueF (s.length +
   parseExtValueF_some _ _ _ (Nat.lt_succ_self _)
 
 
+/-! ## ws URIs -/
+
+theorem cutAt_none (c : UInt8) (a : Bytes) (h : a.contains c = false) : cutAt c a = none := by
+  induction a with
+  | nil => rfl
+  | cons x xs ih =>
+    simp only [List.contains_cons, Bool.or_eq_false_iff] at h
+    have hx : (x == c) = false := by
+      have := h.1; rw [beq_eq_false_iff_ne] at this ⊢; exact fun e => this e.symm
+    simp [cutAt, hx, ih h.2]
+
+theorem cutAt_append (c : UInt8) (a b : Bytes) (h : a.contains c = false) : cutAt c (a ++ c :: b) = some (a, b) := by
+  induction a with
+  | nil => simp [cutAt]
+  | cons x xs ih =>
+    simp only [List.contains_cons, Bool.or_eq_false_iff] at h
+    have hx : (x == c) = false := by
+      have := h.1; rw [beq_eq_false_iff_ne] at this ⊢; exact fun e => this e.symm
+    simp [cutAt, hx, ih h.2]
+
+/-- a ws-URI as RFC 6455 section 3 writes it: `ws:` or `wss:`, `//`, host[:port], a path (empty or starting with `/`),
+optionally `?` and a query -/
+def renderURI (secure : Bool) (host path query : Bytes) (hasQuery : Bool) : Bytes :=
+  (if secure then ascii "wss://" else ascii "ws://") ++ (host ++ path ++ (if hasQuery then 63 :: query else []))
+
+theorem parseAfterScheme_wf (scheme host path query : Bytes) (hasQuery : Bool)
+    (hh : host.contains 47 = false ∧ host.contains 63 = false ∧ host.contains 64 = false)
+    (hp : path = [] ∨ ∃ t, path = 47 :: t) (hpq : path.contains 63 = false) (hq : hasQuery = false → query = []) :
+    parseAfterScheme scheme (host ++ path ++ (if hasQuery then 63 :: query else [])) =
+      some { scheme := scheme, host := host, path := if path.isEmpty then [47] else path, rawQuery := query } := by
+  have hhp : (host ++ path).contains 63 = false := by simp_all
+  have hcutq : cutAt 63 (host ++ path ++ (if hasQuery then 63 :: query else [])) =
+      (if hasQuery then some (host ++ path, query) else none) := by
+    cases hasQuery with
+    | true => exact cutAt_append 63 (host ++ path) query hhp
+    | false => simpa using cutAt_none 63 (host ++ path) hhp
+  have hcutp : cutAt 47 (host ++ path) = (if path.isEmpty then none else some (host, path.tail)) := by
+    rcases hp with rfl | ⟨t, rfl⟩
+    · simpa using cutAt_none 47 host hh.1
+    · simpa using cutAt_append 47 host t hh.1
+  have h64 : ¬ (64 : UInt8) ∈ host := by simpa using hh.2.2
+  unfold parseAfterScheme
+  rw [hcutq]
+  cases hasQuery with
+  | true =>
+    simp only [↓reduceIte, hcutp]
+    rcases hp with rfl | ⟨t, rfl⟩ <;> simp [h64]
+  | false =>
+    simp only [Bool.false_eq_true, ↓reduceIte, List.append_nil, hcutp, hq rfl]
+    rcases hp with rfl | ⟨t, rfl⟩ <;> simp [h64]
+
+/-- **parseURL on every well-formed ws-URI** gives back its parts (the path defaults to `/`). -/
+theorem parseURL_renderURI (secure : Bool) (host path query : Bytes) (hasQuery : Bool)
+    (hh : host.contains 47 = false ∧ host.contains 63 = false ∧ host.contains 64 = false)
+    (hp : path = [] ∨ ∃ t, path = 47 :: t) (hpq : path.contains 63 = false) (hq : hasQuery = false → query = []) :
+    parseURL (renderURI secure host path query hasQuery) =
+      some { scheme := if secure then ascii "wss" else ascii "ws", host := host,
+             path := if path.isEmpty then [47] else path, rawQuery := query } := by
+  have s1 : ∀ r : Bytes, stripPrefix (ascii "ws://") (ascii "ws://" ++ r) = some r := fun r => rfl
+  have s2 : ∀ r : Bytes, stripPrefix (ascii "ws://") (ascii "wss://" ++ r) = none := fun r => rfl
+  have s3 : ∀ r : Bytes, stripPrefix (ascii "wss://") (ascii "wss://" ++ r) = some r := fun r => rfl
+  unfold parseURL renderURI
+  cases secure
+  · simp only [Bool.false_eq_true, ↓reduceIte, s1]
+    exact parseAfterScheme_wf _ host path query hasQuery hh hp hpq hq
+  · simp only [↓reduceIte, s2, s3]
+    exact parseAfterScheme_wf _ host path query hasQuery hh hp hpq hq
+
+/-- the address `Dial` connects to: the URI's port, 80 for `ws` and 443 for `wss` when it has none -/
+theorem hostPort_default (u : WsURL) (h : lastIndex 58 u.host ≤ lastIndex 93 u.host) :
+    (hostPortNoPort u).1 = u.host ++ (if u.scheme == ascii "wss" || u.scheme == ascii "https" then ascii ":443" else ascii ":80")
+    ∧ (hostPortNoPort u).2 = u.host := by
+  unfold hostPortNoPort
+  have : ¬ (lastIndex 58 u.host > lastIndex 93 u.host) := by omega
+  simp [this]
+
+theorem hostPort_explicit (u : WsURL) (h : lastIndex 58 u.host > lastIndex 93 u.host) :
+    (hostPortNoPort u).1 = u.host := by
+  unfold hostPortNoPort
+  simp [h]
+
+
 end Oryx.Model.WsHs
